@@ -442,7 +442,7 @@ func scratch() string {
 	return scratchDir
 }
 func cleanupScratch() {
-	if scratchDir != "" {
+	if scratchDir != "" && os.Getenv("GOVC_KEEP") == "" {
 		os.RemoveAll(scratchDir)
 	}
 }
